@@ -11,6 +11,13 @@
 #include <sys/stat.h>
 #include <unistd.h>
 
+// Reference code runs on the same thread as libjwt and therefore shares OpenSSL's thread-local error
+// queue with it; every entry point restores the queue to what it found.
+struct ErrGuard {
+	ErrGuard() { ERR_set_mark(); }
+	~ErrGuard() { ERR_pop_to_mark(); }
+};
+
 // ================================================================ base64url
 static const char B64URL[] = "ABCDEFGHIJKLMNOPQRSTUVWXYZabcdefghijklmnopqrstuvwxyz0123456789-_";
 
@@ -182,6 +189,7 @@ static int crv_bits(const std::string &crv)
 
 KeyRef key_gen_ec(const std::string &crv)
 {
+	ErrGuard eg;
 	KeyRef k = std::make_shared<KeyTruth>();
 	k->kty = K_EC;
 	k->crv = crv;
@@ -197,6 +205,7 @@ KeyRef key_gen_ec(const std::string &crv)
 
 KeyRef key_gen_okp(const std::string &crv)
 {
+	ErrGuard eg;
 	KeyRef k = std::make_shared<KeyTruth>();
 	k->kty = K_OKP;
 	k->crv = crv;
@@ -212,6 +221,7 @@ KeyRef key_gen_okp(const std::string &crv)
 
 KeyRef key_rsa_fresh(int bits)
 {
+	ErrGuard eg;
 	KeyRef k = std::make_shared<KeyTruth>();
 	k->kty = K_RSA;
 	k->bits = bits;
@@ -272,6 +282,7 @@ static std::map<int, EVP_PKEY *> g_pool;
 
 KeyRef key_rsa_pool(int bits, int idx)
 {
+	ErrGuard eg;
 	idx = ((idx % RSA_POOL_PER_SIZE) + RSA_POOL_PER_SIZE) % RSA_POOL_PER_SIZE;
 	int key = bits * 16 + idx;
 	EVP_PKEY *pk = NULL;
@@ -355,6 +366,7 @@ static void set_b64(json_t *o, const char *name, const std::string &bytes)
 
 json_t *jwk_export_json(const KeyTruth &k, const JwkOpts &o)
 {
+	ErrGuard eg;
 	json_t *j = json_object();
 	std::string z((size_t)o.pad_zeros, '\0');
 	switch (k.kty) {
@@ -461,6 +473,7 @@ static std::string group_name(EVP_PKEY *k)
 
 bool key_pub_equal(const KeyTruth &k, EVP_PKEY *other)
 {
+	ErrGuard eg;
 	if (!other || !k.pkey)
 		return false;
 	switch (k.kty) {
@@ -492,6 +505,7 @@ bool key_pub_equal(const KeyTruth &k, EVP_PKEY *other)
 
 bool key_priv_equal(const KeyTruth &k, EVP_PKEY *other)
 {
+	ErrGuard eg;
 	if (!key_pub_equal(k, other))
 		return false;
 	switch (k.kty) {
@@ -519,17 +533,22 @@ EVP_PKEY *pem_to_pkey(const char *pem, bool priv)
 {
 	if (!pem)
 		return NULL;
+	// The reference shares the calling thread's OpenSSL error queue with libjwt. It must leave the
+	// queue exactly as it found it (mark / pop-to-mark), neither adding entries nor clearing what
+	// the library left behind - that queue is hidden state some checks look for.
+	ERR_set_mark();
 	BIO *b = BIO_new_mem_buf(pem, -1);
 	if (!b)
 		return NULL;
 	EVP_PKEY *k = priv ? PEM_read_bio_PrivateKey(b, NULL, NULL, NULL) : PEM_read_bio_PUBKEY(b, NULL, NULL, NULL);
 	BIO_free(b);
-	ERR_clear_error();
+	ERR_pop_to_mark();
 	return k;
 }
 
 std::string key_pub_pem(const KeyTruth &k)
 {
+	ErrGuard eg;
 	if (!k.pkey)
 		return "";
 	BIO *b = BIO_new(BIO_s_mem());
@@ -543,6 +562,7 @@ std::string key_pub_pem(const KeyTruth &k)
 
 std::string key_pub_der(const KeyTruth &k)
 {
+	ErrGuard eg;
 	if (!k.pkey)
 		return "";
 	unsigned char *d = NULL;
@@ -556,6 +576,7 @@ std::string key_pub_der(const KeyTruth &k)
 
 std::string key_rsa_n(const KeyTruth &k)
 {
+	ErrGuard eg;
 	if (k.kty != K_RSA)
 		return "";
 	return bn_param(k.pkey, OSSL_PKEY_PARAM_RSA_N);
@@ -577,6 +598,7 @@ static const EVP_MD *md_for(int bits)
 
 std::string ref_hmac(int hash_bits, const std::string &key, const std::string &msg)
 {
+	ErrGuard eg;
 	unsigned char out[EVP_MAX_MD_SIZE];
 	unsigned int len = 0;
 	static const unsigned char empty = 0;
@@ -642,6 +664,7 @@ static bool ecdsa_raw_to_der(const std::string &raw, size_t w, std::string &der)
 
 bool ref_verify_raw(const KeyTruth &k, const AlgInfo &a, const std::string &msg, const std::string &sig)
 {
+	ErrGuard eg;
 	if (!key_family_ok(k, a))
 		return false;
 	if (a.fam == FAM_HS) {
@@ -658,6 +681,7 @@ bool ref_verify_raw(const KeyTruth &k, const AlgInfo &a, const std::string &msg,
 		if (!ecdsa_raw_to_der(sig, (size_t)(k.bits + 7) / 8, s))
 			return false;
 	}
+	ERR_set_mark();
 	EVP_MD_CTX *c = EVP_MD_CTX_new();
 	EVP_PKEY_CTX *pc = NULL;
 	bool ok = false;
@@ -673,12 +697,13 @@ bool ref_verify_raw(const KeyTruth &k, const AlgInfo &a, const std::string &msg,
 			ok = true;
 	}
 	EVP_MD_CTX_free(c);
-	ERR_clear_error();
+	ERR_pop_to_mark();
 	return ok;
 }
 
 bool ref_sign(const KeyTruth &k, const AlgInfo &a, const std::string &msg, std::string &sig)
 {
+	ErrGuard eg;
 	sig.clear();
 	if (!key_family_ok(k, a))
 		return false;
@@ -686,6 +711,7 @@ bool ref_sign(const KeyTruth &k, const AlgInfo &a, const std::string &msg, std::
 		sig = ref_hmac(a.hash_bits, k.oct, msg);
 		return !sig.empty();
 	}
+	ERR_set_mark();
 	EVP_MD_CTX *c = EVP_MD_CTX_new();
 	EVP_PKEY_CTX *pc = NULL;
 	bool ok = false;
@@ -707,7 +733,7 @@ bool ref_sign(const KeyTruth &k, const AlgInfo &a, const std::string &msg, std::
 		}
 	}
 	EVP_MD_CTX_free(c);
-	ERR_clear_error();
+	ERR_pop_to_mark();
 	if (ok && a.fam == FAM_ES) {
 		const unsigned char *p = (const unsigned char *)sig.data();
 		ECDSA_SIG *es = d2i_ECDSA_SIG(NULL, &p, (long)sig.size());
